@@ -52,9 +52,15 @@ class FileGen:
             elif x < 0.85:
                 self.emit('/* comment with \\\n splice */')
                 self.feats.add('splice-in-comment')
-            elif x < 0.92:
+            elif x < 0.89:
                 self.emit('// comment continued \\\nby a splice')
                 self.feats.add('splice-in-line-comment')
+            elif x < 0.92:
+                # universal character names shrink when they are converted: positions after them must still be right
+                self.n_noise = getattr(self, 'n_noise', 0) + 1
+                self.emit(r.choice(['static const char *ucn_%d_%d = "caf\\u00e9 \\U0001F600 \\u20ac";', 'static int caf\\u00e9_%d_%d;', '/* \\u00e9\\u00e9 */ static int \\u00e9\\u00e9\\u00e9_%d_%d;'])
+                          % (id(self) % 9973, self.n_noise) + r.choice(['', ' \\\n', ' /* c */ \\\n\\\n']))
+                self.feats.add('universal-character-names')
             else:
                 # directly adjacent backslash-newlines: a continuation line that holds nothing but the backslash
                 self.n_noise = getattr(self, 'n_noise', 0) + 1
@@ -70,6 +76,15 @@ class FileGen:
         if x < 0.45:
             ln = self.cur()
             self.lines.append('  OUTV(%d, __LINE__); OUTS(%d, __FILE__);' % (k, k))
+            return ln
+        if x < 0.47:
+            # __LINE__ / __FILE__ in the body of an object-like macro denote the place of use, not of the definition
+            self.feats.add('probe-via-object-like-macro')
+            self.lines.append('#define OBJPROBE_%d OUTV(%d, __LINE__); OUTS(%d, __FILE__);' % (k, k, k))
+            for _ in range(r.randrange(0, 3)):
+                self.lines.append('')
+            ln = self.cur()
+            self.lines.append('  OBJPROBE_%d' % k)
             return ln
         if x < 0.5:
             self.feats.add('adjacent-splices-between-tokens')
@@ -422,12 +437,17 @@ def run(ctx):
     owners = []
     for (fname, d) in forms:
         lines.append(d)
+        # (re)defined after the directive: a macro body keeps the numbering that was in effect where it was written (see the open finding below)
+        lines += ['#undef GLUE', '#undef STR', '#undef HERE', '#define GLUE(a, b) a ## b', '#define STR(x) #x', '#define HERE __LINE__']
         for j in range(rng.randrange(1, 4)):
             k += 1
             lines.append('  OUTV(%d, __LINE__);%s' % (k, ' OUTS(%d, __FILE__);' % k if j == 0 else ''))
             owners.append(fname)
             if j == 0:
                 owners.append(fname + ':file')
+                # statements made of pasted / stringized / macro-produced tokens: their debug line records must carry the presumed line too
+                lines.append('  GLUE(OU, TV)(%d, HERE); GLUE(OUT, S)(%d, STR(x));' % (k + 500, k + 500))
+                owners += [fname, fname + ':str']
         if rng.random() < 0.5:
             lines.append('')
     lines += ['  return 0;', '}']
@@ -452,6 +472,8 @@ def run(ctx):
         else:
             for o, a1, b1 in zip(owners, lx, lg):
                 ctx.count('line_directive_probes')
+                if o.endswith(':str'):
+                    continue
                 if o.endswith(':file'):
                     if a1 != b1:
                         ctx.violation('C18|FILE|line-directive|%s' % o[:-5], '__FILE__ after #line (%s): chibicc %s, gcc = clang %s' % (o, a1, b1), files=pf, script=pscript)
@@ -461,6 +483,40 @@ def run(ctx):
                     ctx.violation('C18|LINE|line-directive|+1', 'after `#line N` (%s): chibicc %s, gcc = clang %s' % (o, a1, b1), files=pf, script=pscript)
                 elif dlt != 0:
                     ctx.violation('C18|LINE|line-directive|%s|%+d' % (o, dlt), 'after `#line N` (%s): chibicc %s, gcc = clang %s' % (o, a1, b1), files=pf, script=pscript)
+    # debug line records of the probe: everything in main() comes after the first #line (all operands >= 500), so a record below 500 is a
+    # physical line number leaking through (tokens synthesized by ## / # / dynamic macros have their own buffers)
+    rs = core.sh([cc, '-I' + os.path.join(core.VERIF, 'rt'), '-S', '-o', '-', p], timeout=60)
+    if rs[0] == 0:
+        inmain = False
+        lows = []
+        nrec = 0
+        for ln in rs[1].decode('utf-8', 'replace').split('\n'):
+            if ln.startswith('main:'):
+                inmain = True
+            m2 = re.match(r'\s*\.loc \d+ (\d+)', ln)
+            if inmain and m2:
+                nrec += 1
+                if int(m2.group(1)) < 500:
+                    lows.append(int(m2.group(1)))
+        ctx.count('line_directive_loc_records', nrec)
+        if lows:
+            ctx.violation('C18|loc|line-directive|physical-line-leak', '.loc records after #line name physical lines %s' % sorted(set(lows))[:8], files=pf,
+                          script='$CHIBICC -I$VERIF/rt -S -o- lineprobe.c | sed -n "/^main:/,\$p" | grep "\.loc" | awk \'$3 < 500 { bad = 1 } END { exit bad }\'')
+    # open finding: a macro defined before a #line directive and used after it - its body tokens are numbered "definition line + current delta"
+    src2 = '#define STR(x) #x\nvoid OUTS(long, const char *);\nint main(void) {\n\n\n#line 700\n  OUTS(2, STR(b));\n  return 0;\n}\n'
+    p2 = os.path.join(work, 'lineprobe2.c')
+    open(p2, 'w').write(src2)
+    rs2 = core.sh([cc, '-S', '-o', '-', p2], timeout=60)
+    if rs2[0] == 0:
+        locs = sorted({int(m3.group(1)) for m3 in re.finditer(r'\.loc \d+ (\d+)', rs2[1].decode('utf-8', 'replace').split('\nmain:\n')[-1])})
+        ctx.count('line_directive_loc_records', len(locs))
+        for v in locs:
+            if v in (1, 3, 700, 701, 702, 703):      # physical line of the definition / of main, or presumed lines of the statements (N or the known N+1)
+                continue
+            if v == 1 + (701 - 7) or v == 1 + (700 - 7):
+                ctx.violation('C18|loc|macro-defined-before-line-directive|definition-line-plus-delta', '.loc %d for a token of `#define STR(x) #x` (line 1) used after `#line 700`' % v, files={'lineprobe2.c': src2})
+            else:
+                ctx.violation('C18|loc|macro-defined-before-line-directive|%d' % v, '.loc %d is neither a physical nor a presumed line of the probe' % v, files={'lineprobe2.c': src2})
     if ctx.counts.get('reference_failed', 0) > 0.02 * n:
         ctx.note_inconclusive('%d generated files were rejected by a reference compiler' % ctx.counts['reference_failed'])
     if ctx.counts.get('probes_generator_table_disagrees', 0) > 0.01 * max(1, ctx.counts.get('line_probes_compared', 1)):
